@@ -28,11 +28,13 @@ pub enum Op {
     TouchUnchanged,
     /// an empty untracked directory: git does not track directories, so not a change
     EmptyDir,
+    /// a branch (not checked out) named exactly like an existing tag, at that tag's commit
+    BranchLikeTag { which: usize },
 }
 
 pub const BRANCHES: [&str; 10] = ["develop", "feature/x", "release/1", "fé/ü", "007", "hotfix/12/a", "release-2", "Feature/API-v2", "users/a+b@c", "1.2.3"];
 /// tag names: (name, valid semver, valid pep440)
-pub const TAGS: [&str; 45] = [
+pub const TAGS: [&str; 48] = [
     "1.0.0", "1.2.3", "v1.2.3", "2.0.0", "v2.0.0", "0.1.0", "10.20.30", "1.0.0-rc.1", "1.0.0-alpha.1", "v1.0.0-beta.2", "2.0.0-rc.1.post.3", "1.2.3+build.5",
     "3.0.0-alpha", "1.0", "1.0a1", "2!1.0", "1.0.post1", "1.0.0.dev3", "v3.1", "1.2.3.4", "3.0.0rc1", "01.02.03",
     "latest", "release-candidate", "foo", "v", "nightly-2024", "1.x", "v1.2.3.post1", "V1.2.3", "1.2.3-0123", "4.0.0-RC.1", "0.0.0", "1.10.0",
@@ -42,6 +44,8 @@ pub const TAGS: [&str; 45] = [
     "1.2.3-5-gabc1234", "2.0.0-SNAPSHOT", "1.0.0+20240131", "v1.4.0-rc.2+build.20240131T120000Z",
     // separator twins: 1.0-1 is 1.0.post1 (PEP 440 only), 1.0.1 is a release
     "1.0-1", "1.0.1",
+    // markers that embed a version tag's name
+    "deploy-v1.2.3", "ci-passed-1.0.0", "v1.2.3-deployed",
 ];
 
 #[derive(Debug, Clone)]
@@ -369,6 +373,18 @@ impl Repo {
                 let when = std::time::SystemTime::now() + std::time::Duration::from_secs(3600 + (self.log.len() as u64 % 7) * 60);
                 std::fs::File::options().write(true).open(&f).and_then(|h| h.set_modified(when)).map_err(|e| e.to_string())?;
                 self.log.push("rewrite f0.txt with identical content, new mtime".into());
+            }
+            Op::BranchLikeTag { which } => {
+                if self.model.tags.is_empty() {
+                    return Ok(());
+                }
+                let t = self.model.tags[which % self.model.tags.len()].clone();
+                if self.model.branches.iter().any(|b| b.0 == t.name) || !t.name.bytes().all(|b| b.is_ascii_alphanumeric() || matches!(b, b'.' | b'-' | b'+' | b'_')) {
+                    return Ok(());
+                }
+                let h = self.model.commits[t.commit].hash.clone();
+                self.git(&["branch", &t.name, &h], None)?;
+                self.model.branches.push((t.name.clone(), t.commit));
             }
             Op::EmptyDir => {
                 std::fs::create_dir_all(self.dir.join("emptydir").join("nested")).map_err(|e| e.to_string())?;
